@@ -81,6 +81,11 @@ RULES = [
     ("ldf {v}", "0x12 @ lim8(v)", ["u8"]),          # user function with an assertion (defined next to the rules or in the library file)
 ]
 
+# overloaded mnemonic: 2..4 typed candidates (all of them fail for an out-of-range operand) and a sub-rule with alternatives
+OVERLOADS = {"u4": "0x6 @ x", "u8": "0x61 @ x", "u12": "0x700 @ x", "u16": "0x6200 @ x"}      # distinct encoding sizes 8/16/24/32
+OVERLOAD_SETS = [["u4", "u8"], ["u8", "u16"], ["u4", "u8", "u16"], ["u4", "u8", "u12", "u16"], ["u8", "u12", "u16"]]
+SUBRULE_LINES = ["#subruledef imm", "{", "    {x: u4} => 0x0 @ x", "    {x: u8} => 0x1f @ x", "}"]
+
 FN_LINES = ["#fn lim8(x) =>", "{", "    assert(x < 0x100)", "    x`8", "}"]
 
 
@@ -166,9 +171,12 @@ def gen_program(rng):
         isa.append(comment(rng, True))
     isa.append("#ruledef" + rng.choice(["", " cpu"]))
     isa.append("{")
-    for r in RULES:
+    oset = rng.choice(OVERLOAD_SETS)
+    rules = list(RULES) + [("mov {x: %s}" % t, OVERLOADS[t], [t]) for t in oset] + [("psh {v: imm}", "0x70 @ v", ["u8"])]
+    for r in rules:
         isa.append(decorate(rng, "    %s => %s" % (r[0], r[1]), p_na * 0.5))
     isa.append("}")
+    isa += [decorate(rng, l, p_na * 0.5) if l.startswith("    ") else l for l in SUBRULE_LINES]
     fn_in_lib = lib_include and rng.chance(0.4)
     fn_lines = [decorate(rng, l, p_na * 0.5) if l.startswith(("#fn", "    ")) else l for l in FN_LINES]
     if not fn_in_lib:
@@ -239,7 +247,7 @@ def gen_program(rng):
                 continue
             k = rng.below(12)
             if k < 6:
-                r = rng.choice(RULES)
+                r = rng.choice(rules)
                 args = [value_for(t, symbols) for t in r[2]]
                 out.append(("instr", instr_text(rng, r, args)))
             elif k == 6:
@@ -328,7 +336,8 @@ FAULT_TEXTS = {
     "undefined_symbol": ["ld nosuch", "jmp missing", "jmp .nolocal", "#d8 nosuch", "#d16 undefined_value + 1", "st [missing], 0", "addi 1, nosuch", '#d16 "é", nosuch', '#d "日本語", nosuch'],
     "out_of_range": ["ld 256", "ld -1", "lds 128", "lds -129", "addi 16, 0", "addi 0, 16", "jmp 0x10000", "st [0x10000], 0", "st [0], 256", "st [0], -129",
                      "#d8 256", "#d8 1, 2, 0x100", "#d16 -32769", '#d8 "é"', '#d16 "é", 0x10000', '#d8 "a", "😀"',
-                     "ldi 300", "ldi -1", "ldf 256", "ldf 0x1ff", "#d8 lim8(999)", "ld lim8(0x100)", "#d16 0x12 @ lim8(256)"],
+                     "ldi 300", "ldi -1", "ldf 256", "ldf 0x1ff", "#d8 lim8(999)", "ld lim8(0x100)", "#d16 0x12 @ lim8(256)",
+                     "mov 0x12345", "mov -1", "mov 0x10000", "psh 0x100", "psh -1", "mov (0xffff + 1)"],
     "malformed_directive": ["#res", "#align", "#bogus 1", "#d8 1 2", "#d8 ,", "#d8 1 +", "#include", "#d8 (1", "#res 1 2", "#addr", "#d8 1,, 2",
                             "#align 0", "#bankdef", "#bits", "#d", "#d8", "#d16", "zz_new =", "#include 5", "#once 1", "#fn", "#if", "#d8 )", '#d8 "é" 2', '#d16 "é",, 1', '#include "é" 1'],
 }
